@@ -532,6 +532,66 @@ impl<V: VringT<GM> + Clone + Send + Sync + 'static, B: Wrap<V>> Run<V, B> {
                     }
                 }
             }
+            "par_stress" => {
+                // a = [log file; offset of one log byte in it; rounds; gpa ...]: the addresses lie on different pages whose
+                // bits share that log byte.  Per round: the byte is cleared, all writers are released together, each
+                // writes one byte at its address, and the log byte must then show every writer's bit.  The byte is put
+                // back afterwards; the result counts the rounds in which a bit was missing.
+                let mem = self.sh.lock().unwrap().mem.clone();
+                let (fd, off, rounds) = (self.fdt.get(g(0)), g(1) as i64, g(2).min(200_000));
+                let gpas: Vec<u64> = a.iter().skip(3).copied().collect();
+                match mem {
+                    None => Val::s("no-memory"),
+                    Some(_) if gpas.is_empty() || gpas.len() > 8 => Val::s("args"),
+                    Some(m) => {
+                        let mut saved = [0u8; 1];
+                        unsafe { libc::pread(fd, saved.as_mut_ptr() as *mut libc::c_void, 1, off) };
+                        let want: u8 = gpas.iter().fold(0u8, |acc, gpa| acc | (1u8 << ((gpa / 4096) % 8)));
+                        let nw = gpas.len() as u64;
+                        let go = Arc::new(std::sync::atomic::AtomicU64::new(0));
+                        let done = Arc::new(std::sync::atomic::AtomicU64::new(0));
+                        let byte = data.first().copied().unwrap_or(0x5a);
+                        let hs: Vec<_> = gpas
+                            .iter()
+                            .map(|gpa| {
+                                let (m, go, done, gpa) = (m.clone(), go.clone(), done.clone(), *gpa);
+                                std::thread::spawn(move || {
+                                    use std::sync::atomic::Ordering::SeqCst;
+                                    for r in 1..=rounds {
+                                        while go.load(SeqCst) < r {
+                                            std::hint::spin_loop();
+                                        }
+                                        let _ = m.memory().write_slice(&[byte], GuestAddress(gpa));
+                                        done.fetch_add(1, SeqCst);
+                                    }
+                                })
+                            })
+                            .collect();
+                        let mut lost = 0u64;
+                        for r in 1..=rounds {
+                            use std::sync::atomic::Ordering::SeqCst;
+                            let zero = [0u8; 1];
+                            unsafe { libc::pwrite(fd, zero.as_ptr() as *const libc::c_void, 1, off) };
+                            go.store(r, SeqCst);
+                            while done.load(SeqCst) < r * nw {
+                                std::hint::spin_loop();
+                            }
+                            let mut got = [0u8; 1];
+                            unsafe { libc::pread(fd, got.as_mut_ptr() as *mut libc::c_void, 1, off) };
+                            // some writers' bits are there and others' are not: a lost update (no bit at all: no log
+                            // is in force for these pages, which other steps of the history judge)
+                            if got[0] & want != want && got[0] & want != 0 {
+                                lost += 1;
+                            }
+                        }
+                        for h in hs {
+                            let _ = h.join();
+                        }
+                        unsafe { libc::pwrite(fd, saved.as_ptr() as *const libc::c_void, 1, off) };
+                        Val::L(vec![Val::s("ok"), n(lost)])
+                    }
+                }
+            }
             "add_listener" => {
                 // a = [thread; id]: register a fresh eventfd as a custom listener with that id
                 let t = g(0) as usize;
@@ -779,7 +839,7 @@ fn run_inner<V: VringT<GM> + Clone + Send + Sync + 'static, B: Wrap<V>>(cfg: &[V
         // control messages without an acknowledgement: a GET_FEATURES round trip orders them
         let control = !matches!(
             kind.as_str(),
-            "reconnect" | "kick" | "close_evfd" | "read_call" | "add_listener" | "fire_listener" | "queue_state" | "add_used" | "signal" | "write_mem" | "read_mem" | "regions" | "par_write"
+            "reconnect" | "kick" | "close_evfd" | "read_call" | "add_listener" | "fire_listener" | "queue_state" | "add_used" | "signal" | "write_mem" | "read_mem" | "regions" | "par_write" | "par_stress"
                 | "backend_log" | "snapshot" | "panics" | "proxy_probe" | "guest_write" | "guest_read" | "file_size"
         );
         if control {
